@@ -31,7 +31,8 @@ CONSTANTS MaxFrames,       \* size of the frame table
           Dev_BuiltinIgnoreList,       \* D11: before_signal/after_signal/..stop raise counts as true
           Dev_AddEmptyNameReturns,     \* D9: add_watcher returns (not raises) ValueError for an empty name
           Dev_QuitRefusedWhenBusy,     \* D6: a termination signal that meets a busy slot is refused and dropped
-          Dev_SocketEventStartsAll     \* D13: a socket event starts EVERY watcher, without waiting for any
+          Dev_SocketEventStartsAll,    \* D13: a socket event starts EVERY watcher, without waiting for any
+          Dev_OpsAfterStop             \* D19: exclusive operations are still accepted once the arbiter is stopping
 
 SIGKILL == 9
 SIGTERM == 15
@@ -153,6 +154,10 @@ HookOf(s, i, h) == s.cfg.ws[i].hooks[CHOOSE j \in 1..Len(s.cfg.ws[i].hooks) : s.
 BuiltinIgnore == {"before_stop", "after_stop", "before_signal", "after_signal", "extended_stats"}
 Decode(ws) == IF ws % 128 # 0 THEN -(ws % 128) ELSE (ws \div 256) % 256
 Stopped(s, i) == s.ws[i].st = "stopped"
+\* util.synchronized refuses (ConflictError) while the arbiter restarts, while an exclusive operation holds the slot,
+\* and - as repaired - once the arbiter is stopping (D19: a start / restart / incr accepted after everything had been
+\* stopped, in the window before the loop ends, left its workers behind)
+Refused(s) == s.restarting \/ s.slot # "" \/ (~Dev_OpsAfterStop /\ s.stopping)
 \* Watcher.pending_socket_event: an on_demand watcher acts only while the arbiter says a connection is waiting
 Pending(s, i) == s.ws[i].od /\ ~s.sockev
 KidR(s, f) == s.fr[LastKid(s, f)].r
@@ -663,7 +668,7 @@ PeriodNext(s) == IF s.pdue <= s.now THEN s.pdue + (((s.now - s.pdue) \div s.cfg.
 \* ---- PeriodicCallback._run -> synchronized("manage_watchers")(manage_watchers)
 P_periodic(s, f) ==
   LET fr == s.fr[f] IN
-  CASE fr.pc = "0" -> IF s.restarting \/ s.slot # "" THEN Goto(s, f, "2")        \* ConflictError, logged
+  CASE fr.pc = "0" -> IF Refused(s) THEN Goto(s, f, "2")        \* ConflictError, logged
                       ELSE Call([s EXCEPT !.slot = "manage_watchers"], f, "1", "manage_watchers", 0, 0, 0, 0)
     [] fr.pc = "1" -> Await(SyncRelease(s, LastKid(s, f)), f, "2")
     [] fr.pc = "2" ->      \* _schedule_next.  tornado computes floor((now - due) / period) in floats: when the
@@ -856,7 +861,7 @@ P_req(s, f) ==
          \* whose `uid` option is not the endpoint owner (MessageError)
          IF q.cmd = "add" /\ ("eom" \in DOMAIN s.cfg /\ s.cfg.eom) /\ q.adduid # "owner"
          THEN Reply(GotoZ(s, f, 0), cid, q.mid, "error", 3)
-         ELSE IF s.restarting \/ s.slot # "" THEN Reply(GotoZ(s, f, 0), cid, q.mid, "error", 5)
+         ELSE IF Refused(s) THEN Reply(GotoZ(s, f, 0), cid, q.mid, "error", 5)
          ELSE IF q.cmd = "rm"
          THEN CallN(SetA([s EXCEPT !.slot = "arbiter_rm_watcher"], f, i), f, "x3", "rm", i, 0, IF q.nostop THEN 1 ELSE 0, 0, "")
          ELSE IF ByName(s, q.lname) # {} THEN Reply(GotoZ(s, f, 0), cid, q.mid, "error", 5)      \* AlreadyExist
@@ -879,7 +884,7 @@ P_req(s, f) ==
     [] fr.pc = "d1" -> Reply(GotoZ([s EXCEPT !.slot = ""], f, 1), cid, q.mid, "ok", 0)
     [] fr.pc = "d2" -> CallN([s EXCEPT !.slot = "watcher_start"], f, "x3", "op", fr.a, 0, 0, 0, "start")
     [] fr.pc = "x" ->      \* exclusive commands: util.synchronized
-         IF s.restarting \/ s.slot # "" THEN Reply(Goto(s, f, "z"), cid, q.mid, "error", 5)
+         IF Refused(s) THEN Reply(Goto(s, f, "z"), cid, q.mid, "error", 5)
          ELSE IF q.cmd = "set"
          THEN Goto([SetL(s, f, SetOpts(q)) EXCEPT !.fr[f].b = 0], f, "xs")
          ELSE CallN([s EXCEPT !.slot = ExclSlot(q, one)], f, "x3", "op", i, IF q.hasname /\ ~one THEN MaskOf(ws) ELSE 0,
